@@ -547,6 +547,8 @@ type Pager struct {
 	// BeforeCommit runs immediately before the commit step (journal finalisation / release of the
 	// WAL write lock after a commit frame).
 	BeforeCommit func()
+	// CloseSHM: the next EndWALWrite gives the locks up by closing the -shm descriptor instead of unlocking
+	CloseSHM bool
 }
 
 func (p *Pager) logf(f string, a ...any) { p.Steps = append(p.Steps, fmt.Sprintf(f, a...)) }
@@ -967,6 +969,12 @@ func (p *Pager) EndWALWrite() {
 		}
 	}
 	p.pending, p.pendingCommit = nil, 0
+	if p.CloseSHM {
+		// the connection's descriptor of the -shm file is closed with the locks still held (the process exits, or is
+		// killed, right after its commit): every lock of that owner goes at once (fuse SHMHandle.Flush -> DB.UnlockSHM)
+		p.DB.UnlockSHM(ctx, p.Owner)
+		return
+	}
 	_ = p.DB.Unlock(ctx, p.Owner, []litefs.LockType{litefs.LockTypeWrite})
 	_ = p.DB.Unlock(ctx, p.Owner, []litefs.LockType{litefs.LockTypeRead1})
 }
